@@ -101,11 +101,14 @@ Record cst := {
   k_realigned : bool      (* the block that reports the loss has been seen *)
 }.
 
-Definition init_cst (g : geom) : cst :=
-  {| k_D := 0; k_R := 0; k_fpos := 0; k_next := 0; k_ext := false;
+(* a run starts with the frame number [next] and the trigger level [ext] (0 and low for the first run of a
+   source object; what the previous run left behind otherwise) *)
+Definition start_cst (g : geom) (next : Z) (ext : bool) : cst :=
+  {| k_D := 0; k_R := 0; k_fpos := 0; k_next := next; k_ext := ext;
      k_last := map (fun _ => 0) (zrange 0 (nwords g));
      k_scale := map (fun _ => 0%float) (zrange 0 (nwords g));
      k_realigned := false |}.
+Definition init_cst (g : geom) : cst := start_cst g 0 false.
 
 Definition zsum (l : list Z) : Z := fold_right Z.add 0 l.
 
@@ -229,12 +232,27 @@ Definition stamps_increasing (ops : list op) : bool :=
      | OMix _ _ :: r => go prev r
      end) 0 ops.
 
+(* where the checker stands after a history (frame number and trigger level are carried into the next run) *)
+Fixpoint check_end (c : cfg) (S : list Z) (st : cst) (h : list (op * opres)) : cst :=
+  match h with
+  | [] => st
+  | (o, r) :: rest =>
+      if malformed_op o then st
+      else match check_step c S st o r with
+           | Some st' => check_end c S st' rest
+           | None => st
+           end
+  end.
+
 (* The history is the list of operations with what each produced (a crash ends it). *)
-Definition C04_check (c : cfg) (h : list (op * opres)) : bool :=
+Definition C04_check_from (c : cfg) (next : Z) (ext : bool) (h : list (op * opres)) : bool :=
   let ops := map fst h in
   let S := stream_of ops in
-  if stream_wf c S && stamps_increasing ops then check_from c S (init_cst (c_g c)) h
+  if stream_wf c S && stamps_increasing ops then check_from c S (start_cst (c_g c) next ext) h
   else true.                                   (* not a well-formed delivery: the statement is silent *)
+Definition C04_check (c : cfg) (h : list (op * opres)) : bool := C04_check_from c 0 false h.
+Definition C04_end (c : cfg) (next : Z) (ext : bool) (h : list (op * opres)) : cst :=
+  check_end c (stream_of (map fst h)) (start_cst (c_g c) next ext) h.
 
 (* ================================================================================================ *)
 (* Prop-level vocabulary for the theorems                                                           *)
